@@ -28,6 +28,7 @@ ASSUMPTIONS = [
 
 TIMEOUT = 1.0
 POLICIES = {
+    "zero": dict(deltas=[0.0, 0.0, 0.0, 0.0]),  # retries go straight back to the normal queue
     "default": dict(factory=()),
     "f1": dict(factory=(1, 86400, 1, 15)),  # 2, 4, 8
     "f2": dict(factory=(1, 3, 1, 15)),  # 2, 3, 3
@@ -64,13 +65,20 @@ def cells(tier):
                             out.append(dict(kind=kind, n=n, first_ok=first_ok, fkind=fkind, pol=pol,
                                             recurring=recurring, forced=None))
         # forced / plain retry() through the message API at the budget boundary
+        # zero back-off chains with one server timing deviation each (stalled Redis request, late
+        # RabbitMQ confirm / reply / write-drain): the retry races its own redelivery
+        if kind != "mem":
+            for n in (1, 2):
+                for first_ok in (1, None):
+                    out.append(dict(kind=kind, n=n, first_ok=first_ok, fkind="exception", pol="zero", recurring=False,
+                                    forced=None, dev=True))
         for n in (0, 1, 2):
             for api in ("retry", "force_retry", "force_then_fail"):
                 out.append(dict(kind=kind, n=n, first_ok=None, fkind="exception", pol="f1", recurring=False, forced=api))
     return out
 
 
-def execute(cell):
+def execute(cell, deviations=None):
     pol = policy_of(cell["pol"])
     n = cell["n"]
     total_wait = sum(pol(k).total_seconds() for k in range(1, n + 4)) + (n + 3) * TIMEOUT
@@ -127,7 +135,8 @@ def execute(cell):
                                            defer_by=PERIOD if cell["recurring"] else None,
                                            next_in=-1.0 if cell["recurring"] else None))]
     horizon = total_wait + 3.0 + (PERIOD + 3 if cell["recurring"] else 0)
-    res = run_worker(cell["kind"], build=build, messages=msgs, stop_at=horizon,
+    res = run_worker(cell["kind"], build=build, messages=msgs, stop_at=horizon, deviations=deviations,
+                     server_choices=bool(cell.get("dev")),
                      worker_kw=dict(graceful_shutdown_time=0.2), max_iters=3_000_000, settle=1.0)
     viol = []
     if res.status != "ok":
@@ -197,9 +206,20 @@ def jobs(tier):
 
 
 def run_job(job):
+    from ..explore import alternatives
     acc = Acc()
+    todo = []
     for cell in job["cells"]:
-        res, viol, summary = execute(cell)
+        todo.append((cell, cell.get("deviation")))
+        if cell.get("dev") and "deviation" not in cell:
+            base = execute(cell)[0]
+            # only the timing around dispositions matters here; skip the idle polling of the consumer
+            pts = alternatives(base.points, want=lambda l: l.startswith("late:") or
+                               (l.startswith("stall:") and ("MULTI" in l or "HMGET" in l)))
+            for alt in pts:
+                todo.append((dict(cell, deviation=[alt]), [alt]))
+    for cell, dev in todo:
+        res, viol, summary = execute(cell, dev)
         acc.executions += 1
         acc.handles += res.handles
         acc.choice_points += 1
@@ -207,7 +227,7 @@ def run_job(job):
         acc.phases["forced" if cell["forced"] else ("recurring" if cell["recurring"] else "plain")] += 1
         for sig, what in viol:
             acc.violations.append(dict(
-                signature=f"{cell['kind']} {sig}",
+                signature=f"{cell['kind']} {sig}" + (" +server-deviation" if dev else ""),
                 what=what + f" [cell {cell}]",
                 job=dict(cells=[cell]),
                 detail=summary,
